@@ -79,10 +79,20 @@ int main(int argc, char** argv) {
     Rng r(s);
     int nmesh = 0, ntex = 0, nmuscle = 0;
     bool fuse = false; int nstruct = 0;
-    std::string xml = gen_xml(r, &nmesh, &ntex, &nmuscle, nd::g_args.mdrop, false, &fuse, &nstruct);
+    ag::Files files;
+    Rng rc(s ^ 0xC0111DE5ULL);
+    bool collide = rc.chance(0.35);     // colliding mesh geoms need convex hulls (another branch of the mesh cache)
+    std::string xml = gen_xml(r, &nmesh, &ntex, &nmuscle, nd::g_args.mdrop, collide, &fuse, &nstruct, &files);
+    // the global asset cache: emptied before every case (a case must not depend on the cases before it), and before a seeded subset
+    // of the case's steps, so that cold and warm compiles, and threaded compiles that race for the same file, all occur
+    auto clear_cache = [&]() { mjCache* c = mj_getCache(); size_t cap = mj_getCacheCapacity(c); mj_setCacheCapacity(c, 0); mj_setCacheCapacity(c, cap); };
+    clear_cache();
+    unsigned cold = (unsigned)rc.below(64);
+    mjVFS vfs; mj_defaultVFS(&vfs);
+    for (auto& fl : files) if (mj_addBufferVFS(&vfs, fl.first.c_str(), fl.second.data(), (int)fl.second.size())) { fprintf(stderr, "harness: cannot add %s to the VFS\n", fl.first.c_str()); return 2; }
     // steps of the case (the minimiser may drop any of them): 0 second compile, 1 copySpec, 2 copyModel, 3 recompile, 4 reparse+compile
     bool st[5]; for (int i = 0; i < 5; i++) st[i] = !sd::g_args.drop.count(i) && r.chance(0.75);
-    char sc[200]; snprintf(sc, sizeof sc, "meshes=%d textures=%d muscles=%d structure=%d fusestatic=%d steps=%d%d%d%d%d", nmesh, ntex, nmuscle, nstruct, (int)fuse, st[0], st[1], st[2], st[3], st[4]);
+    char sc[260]; snprintf(sc, sizeof sc, "meshes=%d (files=%d hulls=%d) textures=%d muscles=%d structure=%d fusestatic=%d cold=%02x steps=%d%d%d%d%d", nmesh, (int)files.size(), (int)collide, ntex, nmuscle, nstruct, (int)fuse, cold, st[0], st[1], st[2], st[3], st[4]);
     sd::g_scenario = sc;
     sd::Rng r2(s ^ 0x5DEECE66DULL);
     vsim::Config cfg = sd::swarm(r2, {0, 0, 100, 1000, 10000}, {}, est_len);
@@ -93,21 +103,22 @@ int main(int argc, char** argv) {
     if (sd::g_args.opt.count("dumpxml")) printf("XML %s\n", xml.c_str());
     sd::run_begin(s, cfg);
     // ---- reference: single-threaded compile of a freshly parsed spec
-    mjSpec* s0 = mj_parseXMLString(xml.c_str(), nullptr, err, sizeof err);
+    mjSpec* s0 = mj_parseXMLString(xml.c_str(), &vfs, err, sizeof err);
     if (!s0) { fprintf(stderr, "harness: generated XML does not parse: %s\n%s\n", err, xml.c_str()); return 2; }
     s0->compiler.usethread = 0;
-    mjModel* mref = mj_compile(s0, nullptr);
+    mjModel* mref = mj_compile(s0, &vfs);
     if (!mref) {
       snprintf(err, sizeof err, "%s", mjs_getError(s0));
       // the model is rejected: the threaded compile must reject it too
-      mjSpec* s1 = mj_parseXMLString(xml.c_str(), nullptr, err, sizeof err);
+      mjSpec* s1 = mj_parseXMLString(xml.c_str(), &vfs, err, sizeof err);
       s1->compiler.usethread = 1;
-      mjModel* m1 = mj_compile(s1, nullptr);
+      mjModel* m1 = mj_compile(s1, &vfs);
       if (m1) sd::violation("threaded-differs", "single-threaded compile failed (%s) but the threaded compile succeeded", mjs_getError(s0));
       mj_deleteSpec(s1); mj_deleteSpec(s0);
       sd::probe("rejected_models");
       if (sd::g_args.verbose) { printf("REJECTED: %s | warn: %s\n", err, nd::g_lastwarn); if (sd::g_args.opt.count("dumpxml")) printf("XML %s\n", xml.c_str()); }
       sd::run_end();
+      mj_deleteVFS(&vfs);
       continue;
     }
     std::vector<char> ref = model_bytes(mref);
@@ -127,20 +138,22 @@ int main(int argc, char** argv) {
       }
     };
     // ---- threaded compile of a freshly parsed spec, under this run's schedule
-    mjSpec* s1 = mj_parseXMLString(xml.c_str(), nullptr, err, sizeof err);
+    mjSpec* s1 = mj_parseXMLString(xml.c_str(), &vfs, err, sizeof err);
     s1->compiler.usethread = 1;
-    mjModel* m1 = mj_compile(s1, nullptr);
+    if (cold & 1) { clear_cache(); sd::probe("cold_cache_steps"); }
+    mjModel* m1 = mj_compile(s1, &vfs);
     same(m1, "threaded compile (usethread=1)");
     sd::probe("threaded_compiles");
-    if (st[0]) { mjModel* m2 = mj_compile(s1, nullptr); same(m2, "second compile of the same spec", "second-compile"); mj_deleteModel(m2); sd::probe("second_compiles"); }
+    if (st[0]) { if (cold & 2) clear_cache(); mjModel* m2 = mj_compile(s1, &vfs); same(m2, "second compile of the same spec", "second-compile"); mj_deleteModel(m2); sd::probe("second_compiles"); }
     if (st[1]) {
+      if (cold & 4) clear_cache();
       mjSpec* sc2 = mj_copySpec(s1);
       if (!sc2) sd::violation("copy-failed", "mj_copySpec returned NULL");
-      mjModel* m3 = mj_compile(sc2, nullptr); same(m3, "compile of mj_copySpec(spec)", "copy-of-compiled-spec");
+      mjModel* m3 = mj_compile(sc2, &vfs); same(m3, "compile of mj_copySpec(spec)", "copy-of-compiled-spec");
       mj_deleteModel(m3);
       // and the copy compiled without threads
       sc2->compiler.usethread = 0;
-      mjModel* m4 = mj_compile(sc2, nullptr); same(m4, "single-threaded compile of mj_copySpec(spec)", "copy-of-compiled-spec");
+      mjModel* m4 = mj_compile(sc2, &vfs); same(m4, "single-threaded compile of mj_copySpec(spec)", "copy-of-compiled-spec");
       mj_deleteModel(m4); mj_deleteSpec(sc2); sd::probe("copyspec_compiles");
     }
     if (st[2]) { mjModel* m5 = mj_copyModel(nullptr, m1); same(m5, "mj_copyModel"); mj_deleteModel(m5); sd::probe("copymodel"); }
@@ -153,7 +166,8 @@ int main(int argc, char** argv) {
       for (int i = 0; i < nstep; i++) mj_step(m1, d);
       std::vector<mjtNum> qpos(d->qpos, d->qpos + m1->nq), qvel(d->qvel, d->qvel + m1->nv), act(d->act, d->act + m1->na), ctrl(d->ctrl, d->ctrl + m1->nu);
       mjtNum t = d->time;
-      int rc = mj_recompile(s1, nullptr, m1, d);
+      if (cold & 8) clear_cache();
+      int rc = mj_recompile(s1, &vfs, m1, d);
       if (rc != 0) sd::violation("recompile-failed", "mj_recompile of an unchanged spec returned %d: %s", rc, mjs_getError(s1));
       same(m1, "mj_recompile (model)", "recompile");
       if (memcmp(&t, &d->time, sizeof t)) sd::violation("recompile-state", "mj_recompile changed time %.17g -> %.17g", t, d->time);
@@ -167,14 +181,17 @@ int main(int argc, char** argv) {
     if (st[4]) {
       // writer -> reader -> compile is C32's subject; here only: the saved XML of the spec compiles (threaded) to the same bytes
       // when nothing but the compiler's own schedule differs between the two compiles of the re-read spec
-      mjSpec* s3 = mj_parseXMLString(xml.c_str(), nullptr, err, sizeof err);
+      mjSpec* s3 = mj_parseXMLString(xml.c_str(), &vfs, err, sizeof err);
       s3->compiler.usethread = 1;
-      mjModel* a = mj_compile(s3, nullptr); same(a, "threaded compile of a re-parsed spec");
+      if (cold & 16) clear_cache();
+      mjModel* a = mj_compile(s3, &vfs); same(a, "threaded compile of a re-parsed spec");
       mj_deleteModel(a); mj_deleteSpec(s3); sd::probe("reparse_compiles");
     }
     mj_deleteModel(m1); mj_deleteSpec(s1);
     mj_deleteModel(mref); mj_deleteSpec(s0);
     sd::run_end();
+    mj_deleteVFS(&vfs);
+    if (!files.empty()) sd::probe("cases_with_mesh_files");
     if (vsim::stats().max_runnable >= 2) sd::probe("runs_with_parallel_compile");
     if (nmuscle >= 2) sd::probe("cases_with_lengthrange_pool");
     est_len = (est_len * 7 + vsim::stats().opportunities + 8) / 8;
